@@ -98,6 +98,11 @@ def template (route : List Seg) : Str :=
   | [] => ['/']
   | _ => (route.map fun s => '/' :: s.template).flatten
 
+/-- a segment text that cannot be confused: no `/` inside, a literal is not empty and does not start with `{` -/
+def Seg.clean : Seg → Prop
+  | .lit s => '/' ∉ s ∧ s.head? ≠ some '{' ∧ s ≠ []
+  | .param n => '/' ∉ n ∧ '}' ∉ n
+
 def paramNames (route : List Seg) : List Str := route.filterMap fun | .param n => some n | .lit _ => none
 
 /-! ## applications -/
